@@ -359,6 +359,8 @@ pub fn c04(tier: Tier) -> i32 {
             bump(c, "language_laws_skipped_unspecified", 1);
         }
         let cm_d1 = build_capture_model_with(&e.ast, &Deviations { d1: true, ..Default::default() });
+        let cm_mirror = build_capture_model_with(&e.ast, &Deviations { d1: true, d4: true, ..Default::default() });
+        let mut gap_cache_mirror = std::collections::HashMap::new();
         let mirror_dfa = if refmodel::lang::has_tree(&e.ast) { Dfa::new(&lang::mirror_regex(&e.ast)).ok() } else { None };
         let mut gap_cache = std::collections::HashMap::new();
         let mut gap_cache_d1 = std::collections::HashMap::new();
@@ -418,6 +420,16 @@ pub fn c04(tier: Tier) -> i32 {
                 let has_rooted_tree = refmodel::lang::has_tree(&e.ast) && e.text.contains("/**");
                 let class = if has_rooted_tree && structural_only_tree && under_d1.iter().all(|b| b.contains("tree wildcard is not a run of complete components")) {
                     Some("rooted-first-tree-optional-separator".to_string())
+                }
+                else if refmodel::astops::nested_tree(&e.ast, false) && structural_only_tree && {
+                    // recorded finding D4 (with D1): the form of a tree wildcard nested in branches is
+                    // chosen by the encoder's position logic, so the capturing sub-expression means
+                    // something else in this context than the documented semantics says:
+                    // attributed only if the laws hold under exactly the encoder's mirror
+                    let under_mirror = capture_laws(g, &e.ast, &cm_mirror, specified_here, path, &mut gap_cache_mirror);
+                    under_mirror.iter().all(|b| b.contains("tree wildcard is not a run of complete components"))
+                } {
+                    Some("nested-tree-position".to_string())
                 }
                 else {
                     None
